@@ -342,6 +342,17 @@ class Bytes:
         self.n = n
 
 
+class Obj:
+    """An instance of a repository class: fields assigned so far; properties and class constants are resolved
+    through the class definition (MRO) when read."""
+    __slots__ = ('modname', 'cls', 'fields')
+
+    def __init__(self, modname, cls, fields=None):
+        self.modname = modname
+        self.cls = cls
+        self.fields = dict(fields or {})
+
+
 class Opaque:
     __slots__ = ('kind', 'parts')
 
@@ -367,6 +378,10 @@ def render(v):
         return '(' + ', '.join(render(x) for x in v) + ')'
     if isinstance(v, Aff):
         return v.render()
+    if isinstance(v, Obj):
+        return f'{v.cls.name}(' + ', '.join(f'{k}={render(x)}' for k, x in v.fields.items()) + ')'
+    if isinstance(v, bool):
+        return str(v)
     return str(v) if isinstance(v, str) else repr(v)
 
 
@@ -554,6 +569,9 @@ class Interp:
         elif isinstance(target, ast.Attribute) and isinstance(target.value, ast.Name) \
                 and isinstance(self.env.get(target.value.id), dict):
             self.env[target.value.id][target.attr] = v
+        elif isinstance(target, ast.Attribute) and isinstance(target.value, ast.Name) \
+                and isinstance(self.env.get(target.value.id), Obj):
+            self.env[target.value.id].fields[target.attr] = v
         else:
             raise Unsupported(f'assignment target {ast.unparse(target)}')
 
@@ -614,6 +632,18 @@ class Interp:
             if isinstance(e.value, ast.Name) and isinstance(self.env.get(e.value.id), dict) \
                     and e.attr in self.env[e.value.id]:
                 return self.env[e.value.id][e.attr]
+            base = None
+            if isinstance(e.value, ast.Name) and isinstance(self.env.get(e.value.id), Obj):
+                base = self.env[e.value.id]
+            elif isinstance(e.value, ast.Attribute):
+                try:
+                    b = self._expr(e.value)
+                    if isinstance(b, Obj):
+                        base = b
+                except Unsupported:
+                    base = None
+            if base is not None:
+                return self._obj_attr(base, e.attr)
             if self.fold is not None:
                 try:
                     v = self.fold(e)
@@ -660,6 +690,48 @@ class Interp:
         if isinstance(e, ast.JoinedStr):
             return Opaque('str')
         raise Unsupported(f'expression {type(e).__name__}: {ast.unparse(e)[:60]}')
+
+    def _obj_attr(self, obj, attr):
+        if attr in obj.fields:
+            return obj.fields[attr]
+        r = self.ix.class_attr(obj.modname, obj.cls, attr)
+        if r is None:
+            raise Unsupported(f'attribute {attr} of {obj.cls.name}')
+        if r[0] == 'def' and isinstance(r[2], ast.FunctionDef):
+            is_prop = any((isinstance(d, ast.Name) and d.id == 'property') for d in r[2].decorator_list)
+            if not is_prop:
+                raise Unsupported(f'method object {attr}')
+            return self._inline_method(r[1], r[2], obj, [])
+        if r[0] == 'assign':
+            try:
+                v = self.ix.fold_class_attr(obj.modname, obj.cls.name, attr)
+            except Exception:
+                raise Unsupported(f'class constant {attr}')
+            if isinstance(v, (int, float)) and not isinstance(v, bool):
+                return Val.const(v)
+            return Opaque('const', [repr(v)])
+        raise Unsupported(f'attribute {attr}')
+
+    def _inline_method(self, modname, func, obj, argv):
+        names = [a.arg for a in func.args.args]
+        saved = (self.env, self.modname, self.func, self.fold)
+        self.env = dict(zip(names, [obj] + argv))
+        self.modname = modname
+        self.func = func
+        if hasattr(self, 'fold_for'):
+            self.fold = self.fold_for(modname)
+        self._depth = getattr(self, '_depth', 0) + 1
+        if self._depth > 12:
+            raise Unsupported('inlining too deep')
+        try:
+            self._block(func.body)
+            ret = None
+        except _Return as r:
+            ret = r.value
+        finally:
+            self.env, self.modname, self.func, self.fold = saved
+            self._depth -= 1
+        return ret
 
     def _neg(self, v):
         if isinstance(v, Val):
@@ -912,6 +984,14 @@ class Interp:
             return v if isinstance(v, Bytes) else Opaque('bytes', [v])
         if fn.split('.')[0] in ('logging', 'logger'):
             return Opaque('none')
+        if isinstance(e.func, ast.Attribute):
+            recv = None
+            if isinstance(e.func.value, ast.Name) and isinstance(self.env.get(e.func.value.id), Obj):
+                recv = self.env[e.func.value.id]
+            if recv is not None:
+                r = self.ix.class_attr(recv.modname, recv.cls, e.func.attr)
+                if r and r[0] == 'def' and isinstance(r[2], ast.FunctionDef):
+                    return self._inline_method(r[1], r[2], recv, [self._expr(a) for a in args])
         # user functions: inline
         if self.resolve_call is not None:
             target = self.resolve_call(e)
@@ -925,9 +1005,11 @@ class Interp:
                                   [self._expr(k.value) for k in e.keywords])
                 if kind == 'init':
                     modname, cls, init = payload
-                    obj = {}
+                    obj = Obj(modname, cls)
                     self._inline(modname, init, e, self_obj=obj)
-                    return Opaque(cls.name, [Opaque('field', [k, v]) for k, v in obj.items()])
+                    if getattr(self, 'keep_objects', False):
+                        return obj
+                    return Opaque(cls.name, [Opaque('field', [k, v]) for k, v in obj.fields.items()])
         if fn in ('set', 'sorted', 'chr', 'str', 'repr', 'list', 'tuple', 'frozenset') or fn.endswith('.join') \
                 or fn.endswith('.format') or fn.endswith('.decode'):
             return Opaque('call', [fn])
